@@ -34,14 +34,24 @@ def model_check(run, tier):
     run.extra.setdefault("canaries", []).append({"module": "Standardize", "variant": "OverwriteRule=inverted", "refuted_by": r.violated})
 
 
+_OBS_DIR = []
+
+
 def stats_of(obj):
-    s = getattr(obj, "_stats", None)
-    if s is None:
+    """The instance's statistics as its PUBLIC interface shows them: `have_stats`, and what `save` writes to a `.npy`
+    (the documented 2 x (D+1) matrix).  How the object keeps them internally is its own business.  An instance without
+    data (none accumulated, or loaded from an all-zero template) is reported as "no statistics"."""
+    if not obj.have_stats:
         return {"n": 0, "sum": [], "sq": []}
-    s = np.asarray(s)
-    if s.ndim != 2 or s.shape[0] != 2:
-        raise common.MachineryError("Standardize._stats no longer has the (2, D+1) layout the harness reads")
-    return arr_stats(s)  # (a zero count keeps its dimension: an instance loaded from an all-zero template)
+    if not _OBS_DIR:
+        import atexit
+        _OBS_DIR.append(tempfile.mkdtemp(prefix="verif_std_obs_"))
+        atexit.register(shutil.rmtree, _OBS_DIR[0], True)
+    path = os.path.join(_OBS_DIR[0], "observed.npy")
+    with warnings.catch_warnings():
+        warnings.simplefilter("ignore")
+        obj.save(path)
+    return arr_stats(np.load(path))
 
 
 def arr_stats(s):
